@@ -400,10 +400,10 @@ class Interp:
                 k = st.new_obj("alloca" + dst, size)
                 st.regs[dst] = Ptr(k, 0, 0, size)
             elif op == "store":
-                m = re.match(r"store (.+?) (\S+|getelementptr inbounds \(.*?\)|bitcast \(.*?\)), (.+?)\* (%[\w.]+), align", rhs)
+                m = re.match(r"store (.+?) (\S+|getelementptr inbounds \(.*?\)|bitcast \(.*?\)), (.+?)\* (%[\w.]+|@[\w.]+), align", rhs)
                 ty, vtok, pty, ptok = m.groups()
                 v = self.val(st, ty, vtok)
-                self.store(st, st.regs[ptok], self.mod.size_align(ty)[0], v)
+                self.store(st, self.val(st, None, ptok) if ptok.startswith("@") else st.regs[ptok], self.mod.size_align(ty)[0], v)
             elif op == "load":
                 m = re.match(r"load (.+?), (.+?)\* (%[\w.]+|@[\w.]+), align", rhs)
                 ty, _, ptok = m.groups()
